@@ -139,6 +139,20 @@ func zzFixtureSeen(seen map[string]bool, a, b string) bool {
 	return seen[k]
 }
 `, "zzFixtureSeen"},
+	{"R200", "zz_fixture_r200.go", `package bpmn
+
+type zzFixtureGateway struct{ early *gatewayProbingReport }
+
+func zzFixtureKeep(g *zzFixtureGateway, m gatewayProbingReport) { g.early = &m }
+`, "zzFixtureGateway"},
+	{"R202", "zz_fixture_r202.go", `package bpmn
+
+import "strings"
+
+func zzFixtureAttached(attachedToRef, activityId string) bool {
+	return strings.HasSuffix(attachedToRef, activityId)
+}
+`, "zzFixtureAttached"},
 }
 
 // checkFixtures runs the zero-expected rules among ids on the fixture program and returns one obligation per rule.
